@@ -68,6 +68,10 @@ Alias == UNCHANGED bvars
 \* (references are named by the order they were added: 1, 2, ...)
 CopyRemainingOut == [bits |-> SubSeq(s, r + 1, Len(s)), refs |-> [i \in 1..(nrefs - rr) |-> rr + i]]
 
+\* the "top-upped" byte form of a bit string (how cell data is stored): the bits, then - if they do not fill whole bytes -
+\* a completion tag 1 and zeros up to the byte boundary; an aligned string is its bytes as they are
+TopUpBytes(b) == BitsToBytes(IF Len(b) % 8 = 0 THEN b ELSE b \o <<1>> \o [i \in 1..(7 - (Len(b) % 8)) |-> 0])
+
 \* ------------------------------------------------- read results (pure, at s/r)
 ReadUintOut(w)    == Window(w)                            \* = UBits(result, w)
 ReadBitsOut(n)    == Window(n)
